@@ -462,16 +462,28 @@ func registerNatives(e *Engine) {
 		}
 		return (*Iface)(nil)
 	}
+	hashSizes := map[int64]int{1: 16, 2: 16, 3: 20, 4: 28, 5: 32, 6: 48, 7: 64, 8: 36, 9: 20, 10: 28, 11: 32, 12: 48, 13: 64, 14: 28, 15: 32, 16: 32, 17: 32, 18: 48, 19: 64}
 	n["(crypto.Hash).Size"] = func(ex *Exec, site ssa.Instruction, args []Value) Value {
-		h := ex.concretize(ex.term(args[0]), 8, "crypto.Hash value")
-		sizes := map[int64]int{1: 16, 2: 16, 3: 20, 4: 28, 5: 32, 6: 48, 7: 64, 8: 36, 9: 20, 10: 28, 11: 32, 12: 48, 13: 64, 14: 28, 15: 32, 16: 32, 17: 32, 18: 48, 19: 64}
-		sz, ok := sizes[h]
-		if !ok {
-			ex.oblige("panic", "", ex.tb().True(), "crypto: Size of unknown hash function")
-			panic(pathEnd{kind: endPanic})
+		tb := ex.tb()
+		h := ex.term(args[0])
+		known := tb.And(tb.Ule(tb.Const(1, h.S.W), h), tb.Ule(h, tb.Const(19, h.S.W)))
+		ex.oblige("panic", "", tb.Not(known), "crypto: Size of unknown hash function")
+		res := ex.c64(0)
+		for v := int64(19); v >= 1; v-- {
+			res = tb.Ite(tb.Eq(h, tb.Const(uint64(v), h.S.W)), ex.c64(uint64(hashSizes[v])), res)
 		}
-		return ex.c64(uint64(sz))
+		return res
 	}
+	// Available: SHA-384 / SHA-512 are linked wherever crypto/sha512 is imported; which of the other
+	// known algorithms are registered depends on what else the program links: unknown but fixed
+	n["(crypto.Hash).Available"] = func(ex *Exec, site ssa.Instruction, args []Value) Value {
+		tb := ex.tb()
+		h := ex.term(args[0])
+		known := tb.And(tb.Ule(tb.Const(1, h.S.W), h), tb.Ule(h, tb.Const(19, h.S.W)))
+		sure := tb.Or(tb.Eq(h, tb.Const(6, h.S.W)), tb.Eq(h, tb.Const(7, h.S.W)))
+		return tb.And(known, tb.Or(sure, tb.UF("crypto_hash_registered", smt.BoolSort, h)))
+	}
+	n["(crypto.Hash).HashFunc"] = func(ex *Exec, site ssa.Instruction, args []Value) Value { return args[0] }
 	// single-threaded execution: locks are no-ops
 	nop := func(ex *Exec, site ssa.Instruction, args []Value) Value { return nil }
 	for _, nm := range []string{"(*sync.Mutex).Lock", "(*sync.Mutex).Unlock", "(*sync.RWMutex).Lock", "(*sync.RWMutex).Unlock", "(*sync.RWMutex).RLock", "(*sync.RWMutex).RUnlock"} {
